@@ -1248,7 +1248,7 @@ func (e *FactEngine) newUniverse(req *Formula, body *ast.BlockStmt, target ...as
 	if body != nil {
 		sc := e.fnScope()
 		// copies x = y of pure paths: the atoms over x have twins over y
-		for round := 0; round < 2; round++ {
+		copyTwins := func() {
 			ast.Inspect(body, func(n ast.Node) bool {
 				as, ok := n.(*ast.AssignStmt)
 				if !ok || len(as.Lhs) != len(as.Rhs) {
@@ -1291,6 +1291,8 @@ func (e *FactEngine) newUniverse(req *Formula, body *ast.BlockStmt, target ...as
 				return true
 			})
 		}
+		copyTwins()
+		copyTwins()
 		// tracked boolean variables: the atoms of what they are assigned
 		for round := 0; round < 2; round++ {
 			ast.Inspect(body, func(n ast.Node) bool {
@@ -1399,6 +1401,8 @@ func (e *FactEngine) newUniverse(req *Formula, body *ast.BlockStmt, target ...as
 				return true
 			})
 		}
+		// the witnesses just added may themselves be copies (`err = err_inner` in one arm)
+		copyTwins()
 	}
 	var as []string
 	for a := range m {
@@ -1978,6 +1982,9 @@ func nonNilProducer(info *types.Info, x ast.Expr) bool {
 	}
 	if f := Callee(info, call); f != nil && f.Pkg() != nil {
 		p := f.Pkg().Path()
+		if (p == "fmt" && f.Name() == "Errorf") || (p == "errors" && f.Name() == "New") {
+			return true
+		}
 		if (p == "k8s.io/utils/ptr" || p == "k8s.io/utils/pointer") && (f.Name() == "To" || strings.HasSuffix(f.Name(), "Ptr") || f.Name() == "String" || f.Name() == "Bool" || f.Name() == "Int" || f.Name() == "Int32" || f.Name() == "Int64") {
 			return true
 		}
